@@ -94,6 +94,8 @@ func (dsc *dataStoreCommand) lock() {
 	if !atomic.CompareAndSwapUint32(&dsc.ds.multiLock, dsc.id, dsc.id) {
 		// multi-lock not acquired, acquire a single lock
 		dsc.ds.mu.Lock()
+	} else {
+		verifPointN("ds:lock-skipped", int64(dsc.id), verifDsID(dsc.ds), 0)
 	}
 }
 
@@ -121,9 +123,11 @@ func (dsc *dataStoreCommand) acquireExclusive() {
 
 	// bypass the lock on nested callers
 	atomic.StoreUint32(&dsc.ds.multiLock, dsc.id)
+	verifPointN("ds:exclusive-acquired", int64(dsc.id), verifDsID(dsc.ds), 0)
 }
 
 func (dsc *dataStoreCommand) releaseExclusive() {
+	verifPointN("ds:exclusive-released", int64(dsc.id), verifDsID(dsc.ds), 0)
 	// release the multi-lock; subsequent commands are all blocked on dsc.ds.mu
 	atomic.StoreUint32(&dsc.ds.multiLock, dsc.id)
 	// release and let the next subsequent command execute (if any)
